@@ -549,6 +549,45 @@ def no_fragment_cycles(rng, sv, doc):
     return d, "cycle-of-%d" % k
 
 
+def no_fragment_cycles_entry(rng, sv, doc):
+    """an ACYCLIC entry chain E0 > .. > E(e-1) (length 1-3) leading INTO a cycle C0 > .. > C(c-1) > C0 (length 1-3);
+    only E0 is spread by an operation. A search that prunes every fragment reached from an entry that is not itself on
+    a cycle never starts from C0. All relative definition orders occur: entry first, cycle first, interleaved."""
+    d = copy.deepcopy(doc)
+    cands = [o for o in ops(d) if o["op"] != "subscription"]
+    if not cands:
+        return None
+    o = rng.choice(cands)
+    root = sv.root(o["op"])
+    e, c = rng.choice([1, 2, 3]), rng.choice([1, 2, 3])
+    uid = rng.randint(0, 99)
+    entry = ["Ze%d_%d" % (uid, i) for i in range(e)]
+    cyc = ["Zy%d_%d" % (uid, i) for i in range(c)]
+    new = []
+    for i, n in enumerate(entry):
+        nxt = entry[i + 1] if i + 1 < e else cyc[0]
+        new.append({"k": "frag", "name": n, "on": root, "dirs": [], "sels": [typename(), {"k": "spread", "name": nxt, "dirs": []}]})
+    for i, n in enumerate(cyc):
+        new.append({"k": "frag", "name": n, "on": root, "dirs": [],
+                    "sels": [typename(), {"k": "spread", "name": cyc[(i + 1) % c], "dirs": []}]})
+    order = rng.choice(["entry-first", "cycle-first", "shuffled"])
+    if order == "cycle-first":
+        new = new[e:] + new[:e]
+    elif order == "shuffled":
+        rng.shuffle(new)
+    o["sels"].append({"k": "spread", "name": entry[0], "dirs": []})
+    # keep the relative order of the new definitions; place them among the old ones (entry-first: before all old
+    # fragment definitions half of the time, so that the entry is the first search root)
+    if rng.random() < 0.5:
+        first_frag = next((i for i, x in enumerate(d["defs"]) if x["k"] == "frag"), len(d["defs"]))
+        d["defs"][first_frag:first_frag] = new
+    else:
+        slots = sorted(rng.randint(0, len(d["defs"])) for _ in new)
+        for off, (s, x) in enumerate(zip(slots, new)):
+            d["defs"].insert(s + off, x)
+    return d, "entry-%d-into-cycle-of-%d-%s" % (e, c, order)
+
+
 def possible_fragment_spreads(rng, sv, doc):
     d = copy.deepcopy(doc)
     p = Pos(sv, d)
@@ -1166,6 +1205,7 @@ INJECTORS = [
     ("no_unused_fragments", "5.5.1.4", ["NoUnusedFragmentsChecker"], no_unused_fragments),
     ("known_fragment_names", "5.5.2.1", ["KnownFragmentNamesChecker"], known_fragment_names),
     ("no_fragment_cycles", "5.5.2.2", ["NoFragmentCyclesChecker"], no_fragment_cycles),
+    ("no_fragment_cycles", "5.5.2.2", ["NoFragmentCyclesChecker"], no_fragment_cycles_entry),
     ("possible_fragment_spreads", "5.5.2.3", ["PossibleFragmentSpreadsChecker"], possible_fragment_spreads),
     ("values_of_correct_type", "5.6.1", ["ValuesOfCorrectTypeChecker"], values_of_correct_type),
     ("input_object_field_names", "5.6.2", ["ValuesOfCorrectTypeChecker"], input_object_field_names),
